@@ -132,6 +132,10 @@ def run(ctx, eng):
            'ProtocolError before process_input when end_stream and 1xx',
            node=fi.node)
     ctx.assume('header-list validity is decided under C14')
+    cm.include(ctx, eng, 'C22', {('ORD.gates', 'push_stream')},
+               'a promised stream becomes reserved only once the parent has '
+               'accepted the push: a refused push must not leave a stream on '
+               'which the server could then send HEADERS unannounced')
     cm.include(ctx, eng, 'C23', {('ORD.gate', 'prioritize'),
                                  ('ORD.gate', 'send_headers')},
                'a server can send neither PRIORITY nor priority fields on '
